@@ -15,7 +15,42 @@ noncomputable instance instRotSemReal : RotSem ℝ ℂ where
   exb θ := Complex.exp (-(((θ / 2 : ℝ) : ℂ) * Complex.I))
   rh := ((Real.sqrt 2)⁻¹ : ℝ)
 
-instance instRotLawsReal : RotLaws ℝ ℂ := by
-  sorry
+instance instRotLawsReal : RotLaws ℝ ℂ where
+  cs_add a b := by
+    show ((Real.cos ((a + b) / 2) : ℝ) : ℂ)
+      = (Real.cos (a / 2) : ℂ) * (Real.cos (b / 2) : ℂ) - (Real.sin (a / 2) : ℂ) * (Real.sin (b / 2) : ℂ)
+    rw [add_div, Real.cos_add]; push_cast; ring
+  sn_add a b := by
+    show ((Real.sin ((a + b) / 2) : ℝ) : ℂ)
+      = (Real.sin (a / 2) : ℂ) * (Real.cos (b / 2) : ℂ) + (Real.cos (a / 2) : ℂ) * (Real.sin (b / 2) : ℂ)
+    rw [add_div, Real.sin_add]; push_cast; ring
+  cs_zero := by
+    show ((Real.cos ((0 : ℝ) / 2) : ℝ) : ℂ) = 1
+    simp
+  sn_zero := by
+    show ((Real.sin ((0 : ℝ) / 2) : ℝ) : ℂ) = 0
+    simp
+  cs_neg a := by
+    show ((Real.cos ((-a) / 2) : ℝ) : ℂ) = (Real.cos (a / 2) : ℂ)
+    rw [neg_div, Real.cos_neg]
+  sn_neg a := by
+    show ((Real.sin ((-a) / 2) : ℝ) : ℂ) = -(Real.sin (a / 2) : ℂ)
+    rw [neg_div, Real.sin_neg]; push_cast; ring
+  ex_add a b := by
+    show Complex.exp ((((a + b) / 2 : ℝ) : ℂ) * Complex.I)
+      = Complex.exp (((a / 2 : ℝ) : ℂ) * Complex.I) * Complex.exp (((b / 2 : ℝ) : ℂ) * Complex.I)
+    rw [← Complex.exp_add]; congr 1; push_cast; ring
+  ex_zero := by
+    show Complex.exp ((((0 : ℝ) / 2 : ℝ) : ℂ) * Complex.I) = 1
+    simp
+  exb_eq a := by
+    show Complex.exp (-(((a / 2 : ℝ) : ℂ) * Complex.I))
+      = Complex.exp ((((-a) / 2 : ℝ) : ℂ) * Complex.I)
+    congr 1; push_cast; ring
+  rh_sq := by
+    show (2 : ℂ) * ((((Real.sqrt 2)⁻¹ : ℝ) : ℂ) * (((Real.sqrt 2)⁻¹ : ℝ) : ℂ)) = 1
+    have h : (2 : ℝ) * ((Real.sqrt 2)⁻¹ * (Real.sqrt 2)⁻¹) = 1 := by
+      rw [← mul_inv, Real.mul_self_sqrt (by norm_num : (0:ℝ) ≤ 2)]; norm_num
+    exact_mod_cast h
 
 end Qclib
